@@ -401,3 +401,22 @@ Example C08_conv_hyps :
   o_nodes (final_objects conv_h1) = o_nodes (final_objects conv_h2).
 Proof. exact conv_hyps. Qed.
 Print Assumptions C08_conv_hyps.
+
+(* --- second audit N2: the "nothing awaiting" half of quiescence from the history alone --- *)
+Theorem C08_acked_nothing_awaiting : forall eps h,
+  hist_ok4 eps empty_cache h -> fold_left pend_syn h ∅ = ∅ -> await_run eps empty_cache ∅ h = ∅.
+Proof. exact acked_nothing_awaiting. Qed.
+Print Assumptions C08_acked_nothing_awaiting.
+
+(* a non-trivial instance: successful bind acknowledged by the pod notification with the node
+   name, failed bind, pod gone from the API before its resync, its delete; also instantiates the
+   hypothesis [snd (bind_task ...) = RDone] of C08_bind_accepted *)
+Example C08_conv_hyps_nontrivial :
+  hist_ok4 eps0 empty_cache conv_h3 /\ hist_ok4 eps0 empty_cache conv_h4 /\
+  quiescent eps0 conv_h3 /\ quiescent eps0 conv_h4 /\
+  fold_left pend_syn conv_h3 ∅ = ∅ /\
+  o_pods (final_objects conv_h3) = o_pods (final_objects conv_h4) /\
+  o_nodes (final_objects conv_h3) = o_nodes (final_objects conv_h4) /\
+  snd (bind_task eps0 (run eps0 empty_cache [ENode node1; EPG pg2; EPod pod_pending; EPod pod_pending2]) 2 1 1 true) = RDone.
+Proof. exact conv_hyps_nontrivial. Qed.
+Print Assumptions C08_conv_hyps_nontrivial.
